@@ -6,4 +6,4 @@ Require Import ExtrOcamlBasic.
 Extraction Language OCaml.
 (* ExtrOcamlBasic only: bool, option, unit, list, prod, sumbool, sumor map to
    OCaml's; N/Z/positive/nat/byte stay as extracted inductive datatypes. *)
-Extraction "model.ml" Dispatch.dispatch_model Dispatch.dispatch_spec sx_eqb Z.add Z.mul Z.opp Z.of_nat Z.div_eucl Z.eqb Z.ltb Byte.to_N Byte.of_N Z.of_N Z.to_N.
+Extraction "model.ml" Dispatch.dispatch_model Dispatch.dispatch_spec Dispatch.dispatch_wf sx_eqb Z.add Z.mul Z.opp Z.of_nat Z.div_eucl Z.eqb Z.ltb Byte.to_N Byte.of_N Z.of_N Z.to_N.
